@@ -218,6 +218,9 @@ sqrt = _map(lambda v: abs(v) if isinstance(v, Cplx) else core.sym_sqrt(v), _csqr
 floor = _map(lambda v: Sym(z3.ToReal(core.sym_floor(v).e)) if v.kind == 'r' else v, lambda v: builtins.float(real_math.floor(v)))
 
 
+ceil = _map(lambda v: Sym(z3.ToReal(-z3.ToInt(-v.as_real()))) if v.kind == 'r' else v, lambda v: builtins.float(real_math.ceil(v)))
+
+
 def _rint(v):
     if v.kind != 'r':
         return v
@@ -386,7 +389,7 @@ def make_np():
     d['bool8'] = d['bool_']
     g = globals()
     for nm in ['empty', 'full', 'zeros', 'ones', 'empty_like', 'zeros_like', 'ones_like', 'asarray', 'asanyarray', 'array',
-               'ascontiguousarray', 'arange', 'linspace', 'cumsum', 'sum', 'sqrt', 'floor', 'rint', 'round_', 'absolute',
+               'ascontiguousarray', 'arange', 'linspace', 'cumsum', 'sum', 'sqrt', 'floor', 'ceil', 'rint', 'round_', 'absolute',
                'conj', 'conjugate', 'real', 'imag', 'sin', 'cos', 'exp', 'log10', 'log', 'isnan', 'isfinite', 'minimum',
                'maximum', 'isclose', 'concatenate', 'diff', 'all', 'any', 'argsort', 'searchsorted', 'isscalar', 'shape',
                'dtype', 'issubdtype', 'may_share_memory', 'atleast_1d', 'where']:
